@@ -13,7 +13,7 @@ from fractions import Fraction as F
 
 import numpy as np
 
-from mc.core import Report, viol, collect_samples
+from mc.core import Isolated, Sequence, Report, viol, collect_samples
 from mc.oracles.s2 import sphere_voronoi
 from mc.histories import explore_getter_orders
 
@@ -238,10 +238,33 @@ def cases(tier):
     return out
 
 
+def _label(c):
+    return f"{c['alg']}_{c['N']} {c['t']}"
+
+
+def seq_cases(tier):
+    """Several Cartesian position grids built in ONE fresh process: radial grids that agree in length, first and last
+    radius but differ inside; the same radial grid under another direction grid of the same N; the same grid twice."""
+    def c(alg, N, tvals):
+        return {"alg": alg, "N": N, "t": "[" + ", ".join(tvals) + "]", "radii_nm": list(tvals)}
+    ra, rb, rc = ["0.1", "0.2", "0.3", "0.4"], ["0.1", "0.25", "0.3", "0.4"], ["0.1", "0.2", "0.3", "0.45"]
+    out = []
+    for alg, other in (("ico", "randomS"), ("cube3D", "ico"), ("randomS", "cube3D")):
+        for N in ((20,) if tier == "quick" else (8, 12, 20, 42)):
+            out.append({"seq": [c(alg, N, ra), c(alg, N, rb), c(alg, N, ra)]})
+            out.append({"seq": [c(alg, N, ra), c(other, N, ra), c(alg, N, rc)]})
+            out.append({"seq": [c(alg, N, rb), c(alg, N + 1, rb), c(alg, N, ["0.25"]), c(alg, N, rb)]})
+    return out
+
+
 def run(ctx):
     rep = Report(PROPERTY, "exploration")
     cs = cases(ctx.tier)
-    res = ctx.pmap(run_case, cs, chunksize=1, recheck=3)
+    res = ctx.pmap(Isolated(run_case), cs, chunksize=1, recheck=3)
+    scs = seq_cases(ctx.tier)
+    sres = ctx.pmap(Isolated(Sequence(run_case, _label)), scs, chunksize=1, recheck=1)
+    for r in sres:
+        rep.add_violations(r["violations"])
     ocs = [{"order": True, "o": o, "t": t} for o, t in (("ico_12", "[0.1, 0.3, 0.4]"), ("cube3D_8", "0.5"),
                                                         ("randomS_10", "[0.2,0.3]"))]
     ores = ctx.pmap(order_case, ocs, chunksize=1, recheck=1)
@@ -260,6 +283,7 @@ def run(ctx):
         "samples": collect_samples([f"{c['alg']}_{c['N']} {c['t']}" for c in cs], 6),
         "grids_with_open_cells": sorted({f"{c['alg']}_{c['N']}" for c, r in zip(cs, res) if r["open"]}),
         "getter_order_words": sum(r["words"] for r in ores), "getter_order_calls": sum(r["calls"] for r in ores),
+        "histories_in_one_process": len(scs), "grids_in_histories": sum(r["members"] for r in sres),
         "exhaustive": True,
         "bound": {"N": "4..45, 48..55, 80, 92, 98, 100, 162" if ctx.tier == "quick" else "4..100, 162"},
     }
@@ -271,4 +295,6 @@ def run(ctx):
 def replay(case):
     if case.get("order"):
         return order_case(case)["violations"]
+    if "seq" in case:
+        return Sequence(run_case, _label)(case)["violations"]
     return run_case(case)["violations"]
